@@ -28,3 +28,7 @@ pub mod udp;
 
 pub(crate) mod transport;
 pub(crate) mod util;
+
+#[cfg(all(test, dnp3_verif))]
+#[path = "/verif/harness/mod.rs"]
+mod verif_harness;
